@@ -312,8 +312,22 @@ def doc_stream(ctx, res, n):
         s.include = cc.IncludeField(startdir=tmp)
         s.db.host = cc.StringField(default="h")
         s.db.include = cc.IncludeField(startdir=tmp)
+        # a config-type sub-configuration (with an include field of its own) and a list of configurations, declared BEFORE and AFTER the
+        # section whose include cannot be resolved: a load that fails there must not have touched them
+        for nm in ("acct", "zone"):
+            inner = cc.Schema()
+            inner.user = cc.StringField(default="u")
+            inner.include = cc.IncludeField(startdir=tmp)
+            s[nm] = cc.make_type(inner, "Doc%s%d" % (nm, i))
+        row = cc.Schema()
+        row.v = cc.IntField(default=0)
+        s.rows = cc.ListField(row, default=lambda: [])
+        s.late.host = cc.StringField(default="h")
+        s.late.include = cc.IncludeField(startdir=tmp)
+        with open(os.path.join(tmp, "ok-inc.json"), "w") as fh:
+            fh.write('{"user": "from-include"}')
         cfg = s()
-        cfg.load_tree({"name": "user-%d" % i, "db": {"host": "changed"}, "extra": [1, 2]})
+        cfg.load_tree({"name": "user-%d" % i, "db": {"host": "changed"}, "extra": [1, 2], "acct": {"user": "before"}, "zone": {"user": "before"}, "rows": [{"v": 1}]})
         for fmt in ["json", "yaml", "bson", "xml", "pickle"]:
             good = cfg.dumps(fmt)
             docs = {"truncated": good[: max(1, len(good) // 2)], "empty": b"", "garbage": bytes(rng.getrandbits(8) for _ in range(20)),
@@ -321,6 +335,15 @@ def doc_stream(ctx, res, n):
             inc = lambda v: cc.ConfigFormat.get(fmt).dumps(cfg, {"name": "x", "include": v})
             docs.update({"include-missing": inc("missing." + fmt), "include-dir": inc("adir"), "nested-include-missing":
                          cc.ConfigFormat.get(fmt).dumps(cfg, {"name": "x", "db": {"host": "y", "include": "nope"}})})
+            full = {"name": "x", "acct": {"user": "changed-a"}, "zone": {"user": "changed-z"}, "rows": [{"v": 7}, {"v": 8}]}
+            mk = cc.ConfigFormat.get(fmt).dumps
+            docs.update({"late-include-missing-after-config-types": mk(cfg, dict(full, late={"host": "y", "include": "nope"})),
+                         "nested-include-missing-with-config-types": mk(cfg, dict(full, db={"host": "y", "include": "nope"})),
+                         "config-type-include-missing": mk(cfg, dict(full, zone={"user": "z", "include": "nope"})),
+                         "config-type-include-ok-then-late-missing": mk(cfg, dict(full, acct={"user": "a", "include": "ok-inc.json"} if fmt == "json" else {"user": "a"},
+                                                                                  late={"include": "nope"}))})
+            # (a document that parses, resolves its includes and then holds a value some field rejects is not among the operations the
+            #  property names: such a load may stop half-way)
             if fmt == "xml":
                 docs["wrong-root"] = good.replace(b"<config", b"<other").replace(b"</config", b"</other")
             for kind, doc in docs.items():
@@ -338,7 +361,7 @@ def doc_stream(ctx, res, n):
                     res.violate("C06:document-changed-state", "a document that failed to load changed the configuration", case)
                 if not raised:
                     cfg = s()
-                    cfg.load_tree({"name": "user-%d" % i, "db": {"host": "changed"}, "extra": [1, 2]})
+                    cfg.load_tree({"name": "user-%d" % i, "db": {"host": "changed"}, "extra": [1, 2], "acct": {"user": "before"}, "zone": {"user": "before"}, "rows": [{"v": 1}]})
 
 
 def run(ctx, n_quick=200, n_thorough=6000):
